@@ -131,6 +131,18 @@ class Machine:
                         'get', 'index', 'count', 'lower', 'upper', '__contains__',
                         'strip', 'issubset', 'issuperset', 'isdisjoint'):
                     return getattr(base, e.attr)
+            # a property of an object of a class of the program
+            if isinstance(base, Sym) and getattr(base, 'cls', None):
+                meth = self.method_of(base, e.attr)
+                if meth is not None and any(
+                        au.src(d) == 'property'
+                        for d in meth[1].decorator_list):
+                    return self.apply_callable(meth, [base])
+            elif isinstance(base, Sym) and getattr(
+                    self.stubs, 'is_property', None) and \
+                    self.stubs.is_property(e.attr):
+                self.receiver = base
+                return self.stubs[e.attr](self, None, [], {})
             # a method of the model object, used as a value
             # (`starmap(self.ite, ...)`)
             if isinstance(base, Sym) and e.attr in self.stubs:
@@ -294,10 +306,29 @@ class Machine:
                         ok = left > right
                     elif isinstance(op, ast.GtE):
                         ok = left >= right
+                    elif isinstance(op, (ast.Eq, ast.NotEq)) and \
+                            isinstance(left, Sym) and self.method_of(
+                                left, '__eq__') is not None:
+                        # (`__ne__` of the class, when it has one, is not
+                        # consulted: undecided rather than guessed)
+                        if isinstance(op, ast.NotEq) and self.method_of(
+                                left, '__ne__') is not None:
+                            raise Unknown(au.src(e))
+                        ok = bool(self.apply_callable(self.method_of(
+                            left, '__eq__'), [left, right]))
+                        if isinstance(op, ast.NotEq):
+                            ok = not ok
                     elif isinstance(op, ast.Eq):
                         ok = left == right
                     elif isinstance(op, ast.NotEq):
                         ok = left != right
+                    elif isinstance(op, (ast.In, ast.NotIn)) and \
+                            isinstance(right, Sym) and self.method_of(
+                                right, '__contains__') is not None:
+                        ok = bool(self.apply_callable(self.method_of(
+                            right, '__contains__'), [right, left]))
+                        if isinstance(op, ast.NotIn):
+                            ok = not ok
                     elif isinstance(op, (ast.In, ast.NotIn)):
                         if isinstance(right, Sym):
                             # membership in an opaque object: by the
@@ -663,6 +694,35 @@ class Machine:
             raise Raised('TypeError')
         return obj
 
+    def program_class(self, expr):
+        """The class of the program that `expr` names, or None."""
+        try:
+            v = self.ev(expr)
+        except (Unknown, Raised):
+            return None
+        if isinstance(v, tuple) and v[:1] == ('class',):
+            return v
+        return None
+
+    def instance_of(self, v, cls, what):
+        """`isinstance(v, cls)` for a class of the program: objects
+        made from that very class are; plain values are not; an object
+        of another class that has base classes is left undecided."""
+        if isinstance(v, Sym):
+            c = getattr(v, 'cls', None)
+            if c is None:
+                raise Unknown(f'isinstance(..., {what})')
+            if c[1] is cls[1]:
+                return True
+            if any(au.src(b).rsplit('.', 1)[-1] == cls[1].name
+                   for b in c[1].bases):
+                raise Unknown(f'isinstance(..., {what})')
+            return False
+        if isinstance(v, tuple) and v[:1] in (
+                ('closure',), ('lambda',), ('class',), ('ctxgen',)):
+            raise Unknown(f'isinstance(..., {what})')
+        return False
+
     def method_of(self, obj, name):
         cls = getattr(obj, 'cls', None)
         if cls is None:
@@ -687,6 +747,9 @@ class Machine:
                     args = self.elements(e.args)
                     kw = self.keywords(e)
                     return self.apply_callable(meth, [recv0] + args, kw)
+                if not (recv0.attrs and e.func.attr in recv0.attrs):
+                    # (a method the class inherits: not modelled)
+                    raise Unknown(f'method {e.func.attr} of a base class')
         if n == 'hasattr' and len(e.args) == 2:
             obj = self.ev(e.args[0])
             name = self.ev(e.args[1])
@@ -714,6 +777,10 @@ class Machine:
             return abs(self.ev(e.args[0]))
         if n == 'len' and len(e.args) == 1:
             v = self.ev(e.args[0])
+            if isinstance(v, Sym) and self.method_of(
+                    v, '__len__') is not None:
+                return self.apply_callable(
+                    self.method_of(v, '__len__'), [v])
             if isinstance(v, Sym):
                 if '__len__' not in self.stubs:
                     raise Unknown(au.src(e))
@@ -735,13 +802,25 @@ class Machine:
             types = e.args[1].elts if isinstance(
                 e.args[1], ast.Tuple) else [e.args[1]]
             known = _KNOWN_TYPES
-            if isinstance(v, (Sym, tuple)) and not isinstance(v, tuple):
-                raise Unknown(au.src(e))
             out = False
             for t in types:
                 tn = au.src(t).rsplit('.', 1)[-1]
                 if tn not in known:
-                    raise Unknown(au.src(e))
+                    own = self.program_class(t)
+                    if own is None:
+                        raise Unknown(au.src(e))
+                    if self.instance_of(v, own, au.src(t)):
+                        out = True
+                    continue
+                if isinstance(v, Sym):
+                    # an object of a class of the program without base
+                    # classes is none of the built-in types
+                    c = getattr(v, 'cls', None)
+                    if c is None or c[1].bases and any(
+                            au.src(b).rsplit('.', 1)[-1] in known
+                            for b in c[1].bases):
+                        raise Unknown(au.src(e))
+                    continue
                 if isinstance(v, known[tn]):
                     out = True
             return out
@@ -1127,11 +1206,16 @@ class Machine:
                 if isinstance(p, ast.MatchClass) and not p.patterns \
                         and not p.kwd_patterns:
                     t = au.src(p.cls).rsplit('.', 1)[-1]
-                    if t not in _KNOWN_TYPES or isinstance(subj, Sym) or (
+                    own = self.program_class(p.cls) \
+                        if t not in _KNOWN_TYPES else None
+                    if own is not None:
+                        ok = self.instance_of(subj, own, au.src(p.cls))
+                    elif t not in _KNOWN_TYPES or isinstance(subj, Sym) or (
                             isinstance(subj, tuple) and subj[:1] in (
                                 ('closure',), ('lambda',), ('class',))):
                         raise Unknown(f'match {au.src(p.cls)}')
-                    ok = isinstance(subj, _KNOWN_TYPES[t])
+                    else:
+                        ok = isinstance(subj, _KNOWN_TYPES[t])
                 elif isinstance(p, ast.MatchValue):
                     ok = subj == self.ev(p.value)
                 elif isinstance(p, ast.MatchSingleton):
@@ -1147,12 +1231,26 @@ class Machine:
                             and au.src(q.cls).rsplit('.', 1)[-1]
                             in _KNOWN_TYPES) for q in p.patterns):
                     if isinstance(subj, Sym):
-                        raise Unknown('match on an opaque value')
-                    ok = any(
-                        subj == self.ev(q.value) if isinstance(
-                            q, ast.MatchValue) else isinstance(
-                                subj, _KNOWN_TYPES[au.src(q.cls).rsplit(
-                                    '.', 1)[-1]]) for q in p.patterns)
+                        c = getattr(subj, 'cls', None)
+                        if c is None or c[1].bases and any(
+                                au.src(b).rsplit('.', 1)[-1]
+                                in _KNOWN_TYPES for b in c[1].bases):
+                            raise Unknown('match on an opaque value')
+                        # an object of a class of the program is none of
+                        # the built-in types, and equal to no literal
+                        # unless its class says so
+                        if self.method_of(subj, '__eq__') is not None \
+                                and any(isinstance(q, ast.MatchValue)
+                                        for q in p.patterns):
+                            raise Unknown('match on an opaque value')
+                        ok = False
+                    else:
+                        ok = any(
+                            subj == self.ev(q.value) if isinstance(
+                                q, ast.MatchValue) else isinstance(
+                                    subj, _KNOWN_TYPES[au.src(
+                                        q.cls).rsplit('.', 1)[-1]])
+                            for q in p.patterns)
                 else:
                     raise Unknown('match pattern')
                 if ok:
